@@ -42,6 +42,7 @@ var corpus = []string{
 	"{{ strs | json }}{{ m.arr | inspect }}{{ n | type }}{{ 'a b' | url_encode }}",
 	"{% for x in nilv %}x{% else %}empty{% endfor %}{% for x in a limit: 0 %}y{% else %}zero{% endfor %}",
 	"{{ a[0] }}{{ a[-1] }}{{ a[9] }}{{ strs.first }}{{ fixed[1] }}{{ ints | sort | first }}",
+	"{{ an | compact | join }}|{{ an | size }}|{{ an | uniq | size }}|{{ an | reverse | first }}|{{ an | concat: a2 | size }}|{{ an | map: 'k' | size }}",
 }
 
 // corpusBindings builds one rich binding environment. Payloads are symbolic
@@ -51,6 +52,8 @@ func corpusBindings() Bindings {
 	x, y, z := nd.IntIn(0, 9), nd.IntIn(0, 9), nd.IntIn(0, 9)
 	a := make([]any, 3, 6)
 	a[0], a[1], a[2] = x, y, z
+	an := make([]any, 4, 8) // nils before and after values: in-place filtering would be visible
+	an[0], an[1], an[2], an[3] = x, nil, y, nil
 	a2 := make([]any, 1, 4)
 	a2[0] = 7
 	strs := make([]string, 2, 4)
@@ -65,7 +68,7 @@ func corpusBindings() Bindings {
 	ms := []any{map[string]any{"k": 2}, map[string]any{"k": 1}, map[string]any{"z": 0}}
 	pv := "ptr"
 	return Bindings{
-		"a": a, "a2": a2, "strs": strs, "ints": ints, "fixed": [2]string{"u", "v"},
+		"a": a, "an": an, "a2": a2, "strs": strs, "ints": ints, "fixed": [2]string{"u", "v"},
 		"n": n, "str": str, "f": 2.5, "t": true, "nilv": nil,
 		"m": m, "ms": ms, "ym": yaml.MapSlice{{Key: "p", Value: 1}, {Key: "q", Value: 2}},
 		"d": c18Drop{n}, "ds": []any{c18Drop{1}, 2},
